@@ -686,3 +686,20 @@ add(Contract(
     ],
     raises={'AssertionError': [], 'TypeError': ["isnone(old(self.byte_count))"], 'OtherException*': []},
     modifies=['self.struct_code', 'self.unpack', 'self.byte_count', 'self._search_buffer_length'], allocates=True, returns='list'))
+
+# ---------------------------------------------------------------- the default of a reference (C19, C13)
+# a reference to a packet keeps a PRIVATE deep copy of the prototype object given at declaration time (later changes of
+# the user's object do not leak into the class); a reference with a run-time selector needs an explicit default
+add(Contract(
+    'field:Ref._lets_find_a_nice_default',
+    params={'self': 'ref:Ref', 'prototype': 'dyn', 'default': 'dyn'},
+    requires=["implies(isinst(prototype, 'Packet'), allocated(prototype))"],
+    ensures=[
+        "implies(isinst(prototype, 'Packet') and not iscallable(prototype) and not isexpr(prototype),"
+        "        isnone(default) and not same(self.default, prototype) and deep_fresh(self.default))",
+        "implies(iscallable(prototype) or isexpr(prototype), not isnone(default) and same(self.default, default))",
+    ],
+    raises={'ValueError': ["((iscallable(prototype) or isexpr(prototype)) and isnone(default))"
+                           " or (not (iscallable(prototype) or isexpr(prototype)) and isinst(prototype, 'Packet') and not isnone(default))"],
+            'AssertionError': ["not iscallable(prototype) and not isexpr(prototype) and not isinst(prototype, 'Packet')"]},
+    modifies=['self.default'], allocates=True))
